@@ -5,7 +5,7 @@ import struct
 import collections
 
 from simkit.runner import h64
-from world.udpworld import World, Monitor, conn_mod, Packet, PacketHeader, ConnectionStatus, client_addr
+from world.udpworld import World, Monitor, conn_mod, server_mod, Packet, PacketHeader, ConnectionStatus, client_addr
 
 REAL = [
     "mpgameserver/connection.py (all of it: SeqNum, BitField, PacketHeader, Packet, handshake messages, "
@@ -436,3 +436,50 @@ class PoolGuard(Monitor):
                             {"addr": addr, "age_of_old": round(age, 4), "replaced_by_new_object": new is not None},
                             key="replaced" if new is not None else "removed")
         self.prev_temp = cur
+
+
+class QueueConservation(Monitor):
+    """Hand-over between the receive thread and the loop thread: every datagram of an established client that
+    append() put into the queue reaches that client's connection (_recv_datagram) within a few ticks - nothing
+    is lost, and nothing is processed twice, between the socket and the loop, whatever the interleaving."""
+    wants_recv = True
+
+    def attach(self, world):
+        self.w = world
+        self.appended = collections.defaultdict(list)     # addr -> [t]
+        self.received = collections.defaultdict(list)     # addr -> [t]
+        UST = server_mod.UdpServerThread
+        orig = UST.append
+        mon = self
+
+        def append(th, addr, hdr, datagram):
+            mon.appended[tuple(addr)].append(world.k.now)
+            return orig(th, addr, hdr, datagram)
+        world.seams._set(UST, "append", append)
+
+    def pre_recv(self, conn, hdr, datagram):
+        if conn.isServer:
+            self.received[tuple(conn.addr)].append(self.w.k.now)
+        return None
+
+    def judge(self, w, margin):
+        vs = []
+        for cn in w.clients:
+            evs = [(e[0], e[1]) for e in w.hev if e[1] in ("connect", "disconnect") and e[4] is not None
+                   and tuple(e[4][0] if e[1] == "connect" else e[4]) == cn.addr]
+            if len(evs) != 1 or evs[0][1] != "connect" or cn.inc != 1:
+                continue                    # only clients that connected once and stayed
+            t0 = evs[0][0] + margin
+            t1 = min(w.k.now, w.shutdown_t if w.shutdown_t is not None else w.k.now) - 2 * margin
+            if t1 <= t0:
+                continue
+            a = sum(1 for t in self.appended.get(cn.addr, ()) if t0 <= t <= t1)
+            r = sum(1 for t in self.received.get(cn.addr, ()) if t0 <= t <= t1 + margin)
+            r_strict = sum(1 for t in self.received.get(cn.addr, ()) if t0 + margin <= t <= t1)
+            if r < a:
+                vs.append({"kind": "datagram_lost_between_receive_thread_and_loop", "key": w.cfg["entry"],
+                           "detail": {"client": cn.name, "appended": a, "reached_the_connection": r}})
+            elif r_strict > a + sum(1 for t in self.appended.get(cn.addr, ()) if t0 - margin <= t < t0) + 2:
+                vs.append({"kind": "datagram_processed_more_than_once_by_the_loop", "key": w.cfg["entry"],
+                           "detail": {"client": cn.name, "appended": a, "reached_the_connection": r_strict}})
+        return vs
